@@ -192,10 +192,9 @@ fn main() {
     rep.finish();
 }
 
-fn replay(rep: &mut Report, path: &std::path::Path) -> ! {
-    let text = std::fs::read_to_string(path).expect("replay file");
-    println!("replay file {path:?}:\n{text}");
-    println!("(replay re-runs the whole quick enumeration; the case above is part of it)");
-    let _ = rep;
-    std::process::exit(2)
+fn replay(_rep: &mut Report, path: &std::path::Path) -> ! {
+    // re-run exactly the recorded (config, entry) case on a fresh real formatter
+    let ok = vh_seq::emfx::replay_file(path);
+    println!("REPLAY {}", if ok { "no violation reproduced" } else { "violation reproduced" });
+    std::process::exit(if ok { 0 } else { 1 })
 }
